@@ -3,8 +3,267 @@
 -/
 import BitstringModel.Model.C14
 import BitstringModel.Proofs.C14
+import BitstringModel.Proofs.C14Items
 
 namespace BM.C14
 open BM
+
+variable {V : Type}
+
+theorem len_eq' (c : Codec V) (hu : c.mult = 1) (d : Bits) : len c d = (items c d).length := by
+  simp [len, items, chunks_len, w_eq_L c hu]
+
+theorem mapM_cons_ok_inv {α β} (f : α → Except Err β) (a : α) (l : List α) (rs : List β)
+    (h : (a :: l).mapM f = .ok rs) : ∃ r rs', f a = .ok r ∧ l.mapM f = .ok rs' ∧ rs = r :: rs' := by
+  rw [List.mapM_cons] at h
+  cases hfa : f a with
+  | error e => rw [hfa] at h; cases h
+  | ok r =>
+    cases hl : l.mapM f with
+    | error e => rw [hfa, hl] at h; cases h
+    | ok rs' =>
+      rw [hfa, hl] at h
+      injection h with h
+      exact ⟨r, rs', rfl, rfl, h.symm⟩
+
+theorem mapM_nil_ok_inv {α β} (f : α → Except Err β) (rs : List β) (h : ([] : List α).mapM f = .ok rs) : rs = [] := by
+  rw [List.mapM_nil] at h
+  injection h with h
+  exact h.symm
+
+/-- From "the operator succeeds on every item and every result fits" to the per-item build results. -/
+theorem build_forall₂ {α W} (cr : Codec V) (hur : cr.mult = 1) (hwfr : cr.WF) (f : W → Except Err V) (g : α → W)
+    (l : List α) (rs : List V) (outs : List Bits) (hf : (l.map g).mapM f = .ok rs) (henc : rs.mapM cr.enc = .ok outs) :
+    List.Forall₂ (fun a o => buildResult cr (f (g a)) = .ok o) l outs := by
+  induction l generalizing rs outs with
+  | nil =>
+    have := mapM_nil_ok_inv f rs hf
+    subst this
+    have := mapM_nil_ok_inv cr.enc outs henc
+    subst this
+    exact List.Forall₂.nil
+  | cons a l ih =>
+    rw [List.map_cons] at hf
+    obtain ⟨r, rs', h1, h2, rfl⟩ := mapM_cons_ok_inv f (g a) (l.map g) rs hf
+    obtain ⟨o, outs', h3, h4, rfl⟩ := mapM_cons_ok_inv cr.enc r rs' outs henc
+    refine List.Forall₂.cons ?_ (ih rs' outs' h2 h4)
+    simp only [buildResult, h1]
+    exact (createElement_ok cr hur hwfr r o h3).1
+
+theorem drop_take_succ {α} (l : List α) (j m : Nat) (hj : j < l.length) :
+    (l.drop j).take (m + 1) = l[j] :: (l.drop (j + 1)).take m := by
+  rw [List.drop_eq_getElem_cons hj, List.take_succ_cons]
+
+/-- The element loop on items `j … j+m-1` when every build succeeds. -/
+theorem opLoop_ok (c cr : Codec V) (hu : c.mult = 1) (f : V → Except Err V) (bs : List Bits) (t : Bits)
+    (hbs : ∀ b ∈ bs, b.length = c.L) (m j : Nat) (hj : j + m ≤ bs.length) (outs : List Bits)
+    (h : List.Forall₂ (fun b o => buildResult cr (f (c.dec b)) = .ok o) ((bs.drop j).take m) outs) (nd : Bits) (fails : Nat) :
+    opLoop c cr f (bs.flatten ++ t) (List.range' j m) nd fails = .ok (nd ++ outs.flatten, fails) := by
+  induction m generalizing j outs nd with
+  | zero =>
+    simp only [List.take_zero] at h
+    cases h
+    simp [opLoop]
+  | succ m ih =>
+    have hjl : j < bs.length := by omega
+    rw [drop_take_succ bs j m hjl] at h
+    cases h with
+    | cons h1 h2 =>
+      rename_i o outs'
+      rw [List.range'_succ]
+      unfold opLoop
+      rw [readAt_block c hu bs t hbs j hjl]
+      simp only [h1]
+      rw [ih (j + 1) (by omega) outs' h2]
+      simp
+
+/-- The failure counter never decreases, and increases when some item's build fails (unless the loop raises). -/
+theorem opLoop_fails (c cr : Codec V) (hu : c.mult = 1) (f : V → Except Err V) (bs : List Bits) (t : Bits)
+    (hbs : ∀ b ∈ bs, b.length = c.L) (m j : Nat) (hj : j + m ≤ bs.length) (nd : Bits) (fails : Nat) :
+    match opLoop c cr f (bs.flatten ++ t) (List.range' j m) nd fails with
+    | .error _ => True
+    | .ok (_, fails') => fails ≤ fails' ∧
+        ((∃ b ∈ (bs.drop j).take m, ∃ e, buildResult cr (f (c.dec b)) = .error e) → fails < fails') := by
+  induction m generalizing j nd fails with
+  | zero => simp [opLoop]
+  | succ m ih =>
+    have hjl : j < bs.length := by omega
+    rw [List.range'_succ]
+    unfold opLoop
+    rw [readAt_block c hu bs t hbs j hjl]
+    simp only
+    rw [drop_take_succ bs j m hjl]
+    cases hb : buildResult cr (f (c.dec bs[j])) with
+    | ok o =>
+      simp only
+      have := ih (j + 1) (by omega) (nd ++ o) fails
+      revert this
+      cases opLoop c cr f (bs.flatten ++ t) (List.range' (j + 1) m) (nd ++ o) fails with
+      | error e => intro _; trivial
+      | ok r =>
+        obtain ⟨nd', fails'⟩ := r
+        simp only
+        rintro ⟨h1, h2⟩
+        refine ⟨h1, ?_⟩
+        rintro ⟨b, hbm, e, he⟩
+        rcases List.mem_cons.mp hbm with rfl | hbm
+        · rw [hb] at he; cases he
+        · exact h2 ⟨b, hbm, e, he⟩
+    | error e =>
+      simp only
+      by_cases hc : caught e = true
+      · rw [if_pos hc]
+        have := ih (j + 1) (by omega) nd (fails + 1)
+        revert this
+        cases opLoop c cr f (bs.flatten ++ t) (List.range' (j + 1) m) nd (fails + 1) with
+        | error e => intro _; trivial
+        | ok r =>
+          obtain ⟨nd', fails'⟩ := r
+          simp only
+          rintro ⟨h1, _⟩
+          exact ⟨by omega, fun _ => by omega⟩
+      · rw [if_neg hc]
+        trivial
+
+/-- The element loop between two Arrays on items `j … j+m-1` when every build succeeds. -/
+theorem opLoop2_ok (c1 c2 cr : Codec V) (hu1 : c1.mult = 1) (hu2 : c2.mult = 1) (f : V → V → Except Err V)
+    (bs1 : List Bits) (t1 : Bits) (hbs1 : ∀ b ∈ bs1, b.length = c1.L)
+    (bs2 : List Bits) (t2 : Bits) (hbs2 : ∀ b ∈ bs2, b.length = c2.L)
+    (m j : Nat) (hj1 : j + m ≤ bs1.length) (hj2 : j + m ≤ bs2.length) (outs : List Bits)
+    (h : List.Forall₂ (fun (p : Bits × Bits) o => buildResult cr (f (c1.dec p.1) (c2.dec p.2)) = .ok o)
+          (((bs1.drop j).take m).zip ((bs2.drop j).take m)) outs) (nd : Bits) (fails : Nat) :
+    opLoop2 c1 c2 cr f (bs1.flatten ++ t1) (bs2.flatten ++ t2) (List.range' j m) nd fails
+      = .ok (nd ++ outs.flatten, fails) := by
+  induction m generalizing j outs nd with
+  | zero =>
+    simp only [List.take_zero, List.zip_nil_left] at h
+    cases h
+    simp [opLoop2]
+  | succ m ih =>
+    have hjl1 : j < bs1.length := by omega
+    have hjl2 : j < bs2.length := by omega
+    rw [drop_take_succ bs1 j m hjl1, drop_take_succ bs2 j m hjl2, List.zip_cons_cons] at h
+    cases h with
+    | cons h1 h2 =>
+      rename_i o outs'
+      rw [List.range'_succ]
+      unfold opLoop2
+      rw [readAt_block c1 hu1 bs1 t1 hbs1 j hjl1, readAt_block c2 hu2 bs2 t2 hbs2 j hjl2]
+      simp only at h1
+      simp only [h1]
+      rw [ih (j + 1) (by omega) (by omega) outs' h2]
+      simp
+
+theorem rangeLen_exact (n L : Nat) (hL : 0 < L) : Py.rangeLen 0 ((n * L : Nat) : Int) (L : Int) = n := by
+  unfold Py.rangeLen
+  have hL' : (L : Int) > 0 := by omega
+  simp only [hL', if_true]
+  cases n with
+  | zero => simp
+  | succ m =>
+    have hpos : (0 : Int) < (((m + 1) * L : Nat) : Int) := by
+      have : 0 < (m + 1) * L := Nat.mul_pos (by omega) hL
+      omega
+    rw [if_pos hpos]
+    have e : (((m + 1) * L : Nat) : Int) - 0 - 1 = ((L : Int) - 1) + (m : Int) * L := by
+      push_cast; ring
+    rw [e, Int.add_mul_ediv_right _ _ (by omega), Int.ediv_eq_zero_of_lt (by omega) (by omega)]
+    omega
+
+theorem int_off (k L : Nat) : (0 : Int) + (k : Int) * (L : Int) = ((k * L : Nat) : Int) := by
+  push_cast; ring
+
+/-- One iteration of the bit-wise loop on item `k` of a buffer in block form. -/
+theorem bitwise_step (L : Nat) (op : Bool → Bool → Bool) (v : Bits) (B : List Bits) (t : Bits)
+    (hB : ∀ b ∈ B, b.length = L) (k : Nat) (hk : k < B.length) :
+    bsetSlice (B.flatten ++ t) ((0 : Int) + (k : Int) * (L : Int)) ((0 : Int) + (k : Int) * (L : Int) + (L : Int))
+      (List.zipWith op (bslice (B.flatten ++ t) (some ((0 : Int) + (k : Int) * (L : Int)))
+        (some ((0 : Int) + (k : Int) * (L : Int) + (L : Int)))) v)
+      = (B.set k (List.zipWith op B[k] v)).flatten ++ t := by
+  have hlen : (B.flatten ++ t).length = B.length * L + t.length := by
+    rw [List.length_append, blocks_flatten_length L B hB]
+  have hk' : (k + 1) * L ≤ B.length * L := Nat.mul_le_mul_right _ hk
+  have e1 : (k + 1) * L = k * L + L := by ring
+  have e2 : (0 : Int) + (k : Int) * (L : Int) + (L : Int) = ((k * L + L : Nat) : Int) := by push_cast; ring
+  rw [e2, int_off]
+  rw [bslice_nat _ _ _ (by omega) (by omega), bsetSlice_nat _ _ _ _ (by omega) (by omega) (by omega)]
+  have : k * L + L - k * L = L := by omega
+  rw [this, block_at L B t hB k hk, set_block L B t _ hB k hk]
+
+theorem getElem_mid {α} (l1 l2 : List α) (a : α) (m : Nat) (h : l1.length = m) (hm : m < (l1 ++ a :: l2).length) :
+    (l1 ++ a :: l2)[m] = a := by
+  subst h; simp
+
+theorem set_mid {α} (l1 l2 : List α) (a x : α) (m : Nat) (h : l1.length = m) :
+    (l1 ++ a :: l2).set m x = l1 ++ x :: l2 := by
+  subst h; simp
+
+theorem bitwise_fold (L : Nat) (op : Bool → Bool → Bool) (v : Bits) (hv : v.length = L) (bs : List Bits) (t : Bits)
+    (hbs : ∀ b ∈ bs, b.length = L) (m : Nat) (hm : m ≤ bs.length) :
+    (List.range m).foldl (fun acc (k : Nat) =>
+        bsetSlice acc ((0 : Int) + (k : Int) * (L : Int)) ((0 : Int) + (k : Int) * (L : Int) + (L : Int))
+          (List.zipWith op (bslice acc (some ((0 : Int) + (k : Int) * (L : Int)))
+            (some ((0 : Int) + (k : Int) * (L : Int) + (L : Int)))) v)) (bs.flatten ++ t)
+      = ((bs.take m).map (fun b => List.zipWith op b v) ++ bs.drop m).flatten ++ t := by
+  induction m with
+  | zero => simp
+  | succ m ih =>
+    have hml : m < bs.length := by omega
+    rw [List.range_succ, List.foldl_append, ih (by omega)]
+    simp only [List.foldl_cons, List.foldl_nil]
+    rw [List.drop_eq_getElem_cons hml]
+    have hlt : (List.map (fun b => List.zipWith op b v) (List.take m bs)).length = m := by simp; omega
+    have hB : ∀ b ∈ (bs.take m).map (fun b => List.zipWith op b v) ++ bs[m] :: bs.drop (m + 1), b.length = L := by
+      intro b hb
+      rcases List.mem_append.mp hb with h | h
+      · obtain ⟨x, hx, rfl⟩ := List.mem_map.mp h
+        simp [hbs x (List.mem_of_mem_take hx), hv]
+      · rcases List.mem_cons.mp h with rfl | h
+        · exact hbs _ (List.getElem_mem hml)
+        · exact hbs b (List.mem_of_mem_drop h)
+    have hkB : m < ((bs.take m).map (fun b => List.zipWith op b v) ++ bs[m] :: bs.drop (m + 1)).length := by
+      simp; omega
+    rw [bitwise_step L op v _ t hB m hkB]
+    congr 2
+    rw [getElem_mid _ _ _ m hlt hkB, set_mid _ _ _ _ m hlt]
+    have : List.take (m + 1) bs = List.take m bs ++ [bs[m]] := by
+      rw [List.take_add_one, List.getElem?_eq_getElem hml]; rfl
+    rw [this, List.map_append, List.map_cons, List.map_nil]
+    simp
+
+theorem map_blocks_length (L : Nat) (op : Bool → Bool → Bool) (v : Bits) (hv : v.length = L) (bs : List Bits)
+    (hbs : ∀ b ∈ bs, b.length = L) : ∀ b ∈ bs.map (fun b => List.zipWith op b v), b.length = L := by
+  intro b hb
+  obtain ⟨x, hx, rfl⟩ := List.mem_map.mp hb
+  simp [hbs x hx, hv]
+
+/-- `_apply_bitwise_op_to_all_elements_inplace` on a buffer in block form. -/
+theorem bitwiseInplace_blocks (c : Codec V) (hu : c.mult = 1) (hL : 0 < c.L) (op : Bool → Bool → Bool) (v : Bits)
+    (hv : v.length = c.L) (bs : List Bits) (t : Bits) (hbs : ∀ b ∈ bs, b.length = c.L) (ht : t.length < c.L) :
+    bitwiseInplace c op (bs.flatten ++ t) v = ⟨(bs.map fun b => List.zipWith op b v).flatten ++ t, .ok ()⟩ := by
+  unfold bitwiseInplace
+  rw [if_neg (not_not.mpr hv), (view_of_blocks c hu hL bs t hbs ht).2.2.2]
+  unfold Py.rangeList
+  rw [rangeLen_exact bs.length c.L hL, List.foldl_map]
+  rw [bitwise_fold c.L op v hv bs t hbs bs.length (Nat.le_refl _)]
+  simp
+
+/-- `self[:]` keeps the items and drops the trailing bits. -/
+theorem getSlice_all_blocks (c : Codec V) (hu : c.mult = 1) (hL : 0 < c.L) (bs : List Bits) (t : Bits)
+    (hbs : ∀ b ∈ bs, b.length = c.L) (ht : t.length < c.L) :
+    getSlice c (bs.flatten ++ t) none none none = .ok bs.flatten := by
+  unfold getSlice
+  simp only [Option.getD_none]
+  have h1 : ¬ ((1 : Int) = 0) := by omega
+  rw [if_neg h1, if_neg (by simp)]
+  rw [(view_of_blocks c hu hL bs t hbs ht).2.2.2, C01.sliceIndices_none_none_pos 1 (by omega)]
+  simp only
+  have e1 : (0 : Int) * (c.L : Int) = ((0 : Nat) : Int) := by simp
+  have e2 : (bs.length : Int) * (c.L : Int) = ((bs.length * c.L : Nat) : Int) := by push_cast; rfl
+  have hlen : (bs.flatten ++ t).length = bs.length * c.L + t.length := by
+    rw [List.length_append, blocks_flatten_length c.L bs hbs]
+  rw [e1, e2, bslice_nat _ _ _ (by omega) (by omega)]
+  simp only [List.drop_zero, Nat.sub_zero]
+  rw [take_blocks c.L bs t hbs bs.length (Nat.le_refl _), List.take_length]
 
 end BM.C14
